@@ -97,7 +97,8 @@ def run_one(job):
         for prop, unames in checks:
             env = dict(os.environ, QUICKADD_REPO=repo, VERIF_NO_SELFCHECK="1", VERIF_JOBS="4", VERIF_OUT=os.path.join(d, "out"),
                        VERIF_NO_EVIDENCE="1")
-            p = subprocess.run([os.path.join(VERIF, "check"), prop, "--units", ",".join(sorted(unames))], env=env, capture_output=True,
+            cmd = [os.path.join(VERIF, "check"), prop] + (["--units", ",".join(sorted(unames))] if unames else [])
+            p = subprocess.run(cmd, env=env, capture_output=True,
                                text=True, timeout=1800)
             if p.returncode == 1:
                 verdict = "killed"
@@ -121,6 +122,8 @@ def main():
     ap.add_argument("--max", type=int, default=0)
     ap.add_argument("--workers", type=int, default=4)
     ap.add_argument("--seed", type=int, default=1)
+    ap.add_argument("--rerun", default="", help="results file of an earlier campaign: run only its survived/undecided mutants again")
+    ap.add_argument("--full", action="store_true", help="run the whole check of each property (no --units filter)")
     a = ap.parse_args()
     files = a.files.split(",") if a.files else FILES
     idx = json.loads(subprocess.run(["python3-vt", os.path.join(VERIF, "tools", "list_units.py")], capture_output=True, text=True).stdout)
@@ -133,6 +136,14 @@ def main():
             if not checks:
                 continue
             jobs.append([len(jobs), f, lineno, func, desc, new, [(p, sorted(u)) for p, u in checks]])
+    if a.rerun:
+        want = {(r["file"], r["line"], r["func"], r["mut"]) for r in json.load(open(a.rerun)) if r["verdict"] in ("survived", "undecided", "error")}
+        jobs = [j for j in jobs if (j[1], j[2], j[3], j[4]) in want]
+        for k, j in enumerate(jobs):
+            j[0] = k
+    if a.full:
+        for j in jobs:
+            j[6] = [(p, []) for p, _ in j[6]]
     random.Random(a.seed).shuffle(jobs)
     if a.max:
         jobs = jobs[:a.max]
